@@ -614,6 +614,7 @@ func (p *Parser) parseColumnAccessor() (columnAccessor, bool, error) {
 }
 
 func (p *Parser) parseTargetType() (memberAccessor, bool, error) {
+	cp := p.save()
 	startLine := p.lineNum
 	startCol := p.colNum()
 
@@ -625,7 +626,14 @@ func (p *Parser) parseTargetType() (memberAccessor, bool, error) {
 		} else if err != nil {
 			return memberAccessor{}, false, errorAt(fmt.Errorf("cannot use slice syntax in output expression"), startLine, startCol, p.input)
 		}
-		return p.parseTypeAndMember()
+		ma, ok, err := p.parseTypeAndMember()
+		if !ok {
+			// The ampersand is not the start of a target type, do not
+			// consume it.
+			cp.restore()
+			return memberAccessor{}, false, err
+		}
+		return ma, true, nil
 	}
 
 	return memberAccessor{}, false, nil
